@@ -67,6 +67,23 @@ theorem nonce_sequence (s : Stream) (ops : List Op) (hb : s.encCtr ≤ counterLi
   obtain ⟨n, h1, h2, h3, h4, h5⟩ := run_summary ops s hb
   exact ⟨n, h5, h1, h2, h3, h4⟩
 
+/-- **lost_frame_nonce_not_reused** (write failure): a protected frame is sealed — and its counter
+    value consumed — before its bytes are handed to the connection; when that write then fails
+    (deadline mid-frame, short write) the stream is in the very state `s'` it is in after a
+    successful send, although all, part or none of `f` reached the wire. Whatever the application
+    does next on the stream (any history `ops`, through any sending API), no frame it emits carries
+    the (key, nonce) pair the lost frame was sealed under. -/
+theorem lost_frame_nonce_not_reused (s s' : Stream) (d : Bytes) (fl : Nat) (f : WireFrame) (ops : List Op)
+    (hb : s.encCtr ≤ counterLimit) (hs : s.sendFrame d fl = .ok (s', f)) :
+    ∀ p ∈ (s'.run ops).2.filterMap nonceOf, nonceOf f ≠ some p := by
+  have h := nonces_distinct s (.send d fl :: ops) hb
+  have hrun : (s.run (.send d fl :: ops)).2 = f :: (s'.run ops).2 := by
+    simp [Stream.run, Stream.step, okOr, hs]
+  rw [hrun] at h
+  intro p hp hf
+  rw [List.filterMap_cons, hf] at h
+  exact (List.pairwise_cons.mp h).1 p hp rfl
+
 /-- **refuses_wrap**: at counter `0xffffffff` a protected send returns an error and emits nothing. -/
 theorem refuses_wrap (s : Stream) (k : Nat) (data : Bytes) (flag : Nat)
     (hk : s.key = some k) (he : s.encrypted = true) (hc : s.encCtr = counterLimit) :
